@@ -494,3 +494,58 @@ macro_rules! gzip_resume_harness {
 gzip_resume_harness!(kd7_gzip_resume_extra, 0);
 gzip_resume_harness!(kd7_gzip_resume_name, 1);
 gzip_resume_harness!(kd7_gzip_resume_comment, 2);
+
+/// A new gzip member starts its header fields from their beginning whatever `gzindex` a previous, abandoned member left
+/// behind (deflateReset in the middle of a long name does not clear it: the header writer must) — C14 "reset == fresh".
+#[kani::proof]
+#[kani::unwind(12)]
+#[kani::stub(core::fmt::write, stub_fmt_write)]
+#[kani::stub(core::panicking::panic_nounwind, stub_pn)]
+#[kani::stub(core::panicking::panic_nounwind_fmt, stub_pnf)]
+#[kani::stub(crate::deflate::algorithm::run, stub_run_consume_all)]
+#[kani::stub(<[u16]>::fill, stub_fill_zero)]
+#[kani::stub(crate::crc32::crc32, stub_crc_nondet)]
+#[kani::stub(core::ffi::CStr::from_ptr, stub_cstr_from_ptr)]
+fn kd7_gzip_start_stale_gzindex() {
+    const LBR: usize = 8;
+    let mut w = [0u8; 2 << WB7];
+    let mut p = [0u16; 1 << WB7];
+    let mut h = [0u16; HASH_SIZE];
+    let mut pe = [MaybeUninit::new(0u8); 4 * LBR];
+    let mut sy = [0u8; 3 * LBR];
+    let mut state = typed_state(&mut w, &mut p, &mut h, &mut pe, &mut sy, WB7, LBR, 6, 2, Strategy::Default);
+    state.window_size = 2 << WB7;
+    state.last_flush = -2;
+    state.status = Status::GZip; // as after deflateInit2 / deflateReset
+    let stale: usize = kani::any();
+    kani::assume(stale <= 3);
+    state.gzindex = stale;
+    let mut name: [u8; 4] = kani::any();
+    kani::assume(name[0] != 0 && name[1] != 0 && name[2] != 0);
+    name[3] = 0;
+    let mut gz = gz_header::default();
+    let which: bool = kani::any();
+    if which {
+        gz.name = name.as_mut_ptr();
+    } else {
+        gz.comment = name.as_mut_ptr();
+    }
+    state.gzhead = Some(unsafe { &mut *(&mut gz as *mut gz_header) });
+    let mut stream = typed_stream(unsafe { &mut *(&mut state as *mut State) });
+    let input = [9u8];
+    let mut out = [0u8; 32];
+    stream.next_in = input.as_ptr() as *mut u8;
+    stream.avail_in = 1;
+    stream.next_out = out.as_mut_ptr();
+    stream.avail_out = 32;
+    let rc = deflate(&mut stream, DeflateFlush::Finish);
+    assert!(rc == ReturnCode::StreamEnd);
+    let produced = 32 - stream.avail_out as usize;
+    assert!(produced == 10 + 4 + 8, "fixed header, the whole string with its terminator, trailer");
+    assert!(out[0] == 0x1f && out[1] == 0x8b && out[2] == 8 && out[3] == if which { 8 } else { 16 });
+    assert!(out[10] == name[0] && out[11] == name[1] && out[12] == name[2] && out[13] == 0);
+    kani::cover!(stale == 2 && which);
+    kani::cover!(stale == 0 && !which);
+    core::mem::forget(stream);
+    core::mem::forget(state);
+}
